@@ -117,8 +117,9 @@ def sanitize_table_prefix(app_id: str) -> str:
     Sanitize an app_id for safe use as a SQLite table name prefix.
 
     Replaces any character that is not alphanumeric or underscore with an
-    underscore, prepends an underscore if the result starts with a digit,
-    and always appends an 8-character hash of the original app_id.
+    underscore, prepends an underscore if the result starts with a digit or
+    with ``sqlite`` (SQLite reserves every object name beginning with
+    ``sqlite_``), and always appends an 8-character hash of the original app_id.
 
     The hash prevents collisions when two different app_ids sanitize to the
     same string (e.g. ``my-app`` and ``my_app``), and also protects against
@@ -129,7 +130,7 @@ def sanitize_table_prefix(app_id: str) -> str:
     :return: A string safe for use in SQLite table names
     """
     sanitized = re.sub(r"[^a-zA-Z0-9_]", "_", app_id)
-    if sanitized and sanitized[0].isdigit():
+    if sanitized and (sanitized[0].isdigit() or sanitized.lower().startswith("sqlite")):
         sanitized = f"_{sanitized}"
     sanitized = sanitized or "_default"
     hash_suffix = hashlib.sha256(app_id.encode()).hexdigest()[:8]
